@@ -8,7 +8,7 @@ import random
 import streamlib as sl
 from vlib import build_lib
 
-THEOREMS = None
+THEOREMS = ["C12_loadDict_inv", "C12_loadDict_hist", "C12_loadDict_roundtrip", "C12_attach_inv", "C12_attach_roundtrip", "C12_dictctx_unchanged"]
 ORACLES = ["stream"]
 CORRESPONDENCE = ["Model.FastStream loadDict/loadDictSlow/attach_dictionary/compress_fast_continue (prefix, external dictionary, dictCtx with and without "
                   "table copy) == lib/lz4.c: return value, output bytes and whole public stream state after EVERY operation"]
